@@ -76,7 +76,12 @@ func c15Case(r *Result, m *Model, rng randLike, n int) {
 		r.finding(Finding{Kind: "crash", Clause: "C15.env", Text: err.Error()})
 		return
 	}
-	defer v.Close(ctx)
+	wedged := false
+	defer func() {
+		if !wedged { // a vault that stopped answering would hang in Close as well
+			v.Close(ctx)
+		}
+	}()
 	np := rng.IntN(9)
 	base := time.Now().Add(-time.Hour).UTC()
 	var store []sRow
@@ -194,6 +199,30 @@ func c15Case(r *Result, m *Model, rng randLike, n int) {
 			nontrivial = true
 		}
 		r.count(fmt.Sprintf("search:shape%d", shape))
+	}
+	// the empty filter is not a query (Search refuses it); refusing it must cost nothing: the next call still answers
+	if n%2 == 0 {
+		ectx, ecancel := context.WithTimeout(ctx, 3*time.Second)
+		ch, err := v.Search(ectx, storage.Filters{})
+		if err == nil && ch != nil {
+			drain(ch, nil)
+		}
+		ecancel()
+		xctx, xcancel := context.WithTimeout(ctx, 3*time.Second)
+		id := 1
+		if len(store) > 0 {
+			id = store[0].ID
+		}
+		got, xerr := v.Exists(xctx, intUUID(id))
+		xcancel()
+		r.count("search:empty filter, then exists")
+		if xerr != nil {
+			wedged = true
+			r.finding(Finding{Kind: "monitor", Clause: "C15.exists", Features: map[string]any{"after": "refused empty-filter search", "err": true},
+				Text: fmt.Sprintf("after a Search with an empty filter, Exists(%d) did not answer within 3 s: %v", id, xerr), Case: desc(map[string]any{"id": id, "after": "Search(Filters{})"})})
+			return
+		}
+		_ = got
 	}
 	// List
 	for _, limit := range []int{0, 1, 2, np, np + 3, -1} {
